@@ -323,6 +323,7 @@ struct Wide {
             constexpr std::size_t limbs = Rep::number_of_limbs;
             if ((op == MUL || op == A_MUL) && limbs >= 129 && (limbs & (limbs - 1)) != 0) cause = "karatsuba-non-power-of-two-limb-count/";
         }
+        o.region = cause;
         if (got != expect || (!fail_detail.empty() && fail_detail != "skip"))
             return o.fail(std::string("op") + opname(op) + "/" + cause + "value-mismatch", "expected " + zstr(expect) + " got " + zstr(got) + " " + fail_detail);
         // non-trivial: >= 2 significant limbs in an operand, or a carry/borrow across a limb boundary
